@@ -10,6 +10,9 @@
 EXTENDS Core, BEP3, BEP52, TLC, Json, IOUtils
 
 Recs == ndJsonDeserialize(IOEnv.TRACE_FILE)
+\* the implementation-shaped hasher models at the real block size: what THEY predict (clause M10.impl)
+HV == INSTANCE HasherV2 WITH MaxPieces <- 0, PieceLens <- {}, Classes <- {}, Variant <- "code", st <- 0
+H1 == INSTANCE HasherV1 WITH MaxFiles <- 0, MaxSize <- 0, PieceLens <- {}, Variant <- "fixed", Aligns <- {}, st <- 0
 
 VARIABLES i, grp
 vars == <<i, grp>>
@@ -51,6 +54,11 @@ Clause(r, c) ==
                            /\ m.stream_len = DeclTotal(m)
     [] c = "C01.plen" -> m.plen > 0 /\ (r.P > 0 => m.plen = r.P)
     [] c = "C01.name" -> m.name = r.name
+    [] c = "M01.impl" ->   \* the implementation-shaped Hasher model predicts the piece string (listed order)
+         LET sizes == IF m.has_files THEN Lens(m.files) ELSE <<m.length>>
+             out == H1!HasherOut(sizes, m.plen, FALSE)
+         IN /\ Len(out) = Len(m.pieces)
+            /\ \A j \in DOMAIN out : <<"S", out[j][2] \div m.plen, out[j][3], out[j][4]>> \in SeqToSet(m.pieces[j])
     \* ---- C15: piece-aligned v1 -------------------------------------------------
     [] c = "C15.list" -> r.single \/ (m.has_files /\ WellFormed(m)
                                       /\ IsPermutation(PL(Payload(m)), DiskPL(r)))
@@ -128,6 +136,21 @@ HasherClause(r, c) ==
                    /\ r.hashers[k].rootsig = r.hashers[l].rootsig
                    /\ r.hashers[k].layersig = r.hashers[l].layersig
                    /\ (r.hashers[k].hybrid /\ r.hashers[l].hybrid) => r.hashers[k].piecesig = r.hashers[l].piecesig
+       [] c = "M10.impl" ->    \* each hasher's output is what its implementation-shaped model computes
+            \A k \in DOMAIN r.hashers :
+                LET h == r.hashers[k]
+                    cls == IF h.cls = "HasherV2" THEN "V2" ELSE IF h.cls = "HasherHybrid" THEN "HY"
+                           ELSE IF h.hybrid THEN "FHh" ELSE "FH"
+                    mdl == HV!Result(cls, sz, P)
+                IN /\ h.status = "ok"
+                   /\ mdl.root \in SeqToSet(h.root)
+                   /\ Len(mdl.layer) = Len(h.layer)
+                   /\ \A j \in DOMAIN mdl.layer : mdl.layer[j] \in SeqToSet(h.layer[j])
+                   /\ h.hybrid => (/\ Len(mdl.pieces) = Len(h.pieces)
+                                    /\ \A j \in DOMAIN mdl.pieces :
+                                          <<"S", mdl.pieces[j][2] \div P, mdl.pieces[j][3], mdl.pieces[j][4]>>
+                                             \in SeqToSet(h.pieces[j])
+                                    /\ h.padding = mdl.padding)
        [] c = "C10.steps" ->   \* FileHasher's public iterator: step k yields layer hash k (and piece k)
             \A k \in DOMAIN r.hashers : r.hashers[k].iter =>
                  /\ Len(r.hashers[k].yields) = CeilDiv(sz, P)
